@@ -68,23 +68,46 @@ def classify(stream, case, out):
 _st = Stream('expr', 'h_filters', gen=gen, nontrivial=nontrivial)
 _st.py_judge = judge
 
+# whole stacks: the C07 stack generators, but the front end also applies the macros' first gate — the level against
+# the max-level hint the stack published when its dispatcher was built (TV_HINT_GATE).  What each layer then receives
+# is compared with the model and with the summary-free specification `shouldReceive`: an unsound stack hint or
+# stack interest (pick_level_hint, pick_interest, Filtered/FilterState interest merging) loses a delivery.
+def _c07(name):
+    import importlib
+    return getattr(importlib.import_module('checks.C07'), name)
+def _gen_stack(rng, tier):
+    n = 600 if tier == 'quick' else 15000
+    g = _c07('gen')(rng, 'thorough')
+    for _ in range(n): yield next(g)
+def _gen_chain(rng, tier):
+    n = 1200 if tier == 'quick' else 30000
+    g = _c07('gen_chain')(rng, 'thorough')
+    for _ in range(n): yield next(g)
+_sk = Stream('stack', 'h_layers', mode='modelstack', gen=_gen_stack, nontrivial=lambda c, o: _c07('nontrivial')(c, o), spec_mode='spec')
+_sk.env = {'TV_HINT_GATE': '1'}
+_sc = Stream('stackchain', 'h_chain', mode='modelchain', gen=_gen_chain, nontrivial=lambda c, o: _c07('nontrivial')(c, o), spec_mode='spec')
+_sc.env = {'TV_HINT_GATE': '1'}
+
 PROPERTY = {
     'manifest': {
         'text': "Lean 4 theorems by structural induction over filter expressions of ANY depth (level thresholds, target tables, FilterFn/DynFilterFn with honest hints, Option, and/or/not, reload, Box): "
                 "callsite_enabled = never implies no context enables it, = always implies every context enables it (interest_sound), and whatever is enabled has level <= max_level_hint (hint_sound, using C11's "
                 "most_specific_wins for target tables). The transcribed combinators are compared with the real FilterExt combinators on random expressions over a 280-point metadata universe in two contexts, "
-                "observing real delivery to a filtered layer, and the three implications are judged on the implementation's own answers.",
-        'note': "Trusted: Lean kernel; propext/Classical.choice/Quot.sound; user closures are honest as the code's own debug_assert!s demand (hypothesis Honest); EnvFilter with span-scoped directives as a leaf and whole-stack "
-                "summaries (pick_interest / pick_level_hint, Vec, Option layers) are covered by C07's stream, not yet by a theorem here. Known findings F6 (Vec register_callsite), F8 (EnvFilter [span]=level) are stack/EnvFilter-level.",
+                "observing real delivery to a filtered layer, and the three implications are judged on the implementation's own answers. Whole stacks: stack_interest_sound (pick_interest + FilterState interest "
+                "accumulation) and stack_hint_sound (pick_level_hint) over stacks of plain / global-filter / per-layer-filtered layers; real stacks (and_then trees and .with() chains) are driven through a front end that applies "
+                "the macros' gates — level against the published max-level hint, then the cached interest — and what every layer receives is compared with the model and with the summary-free specification.",
+        'note': "Trusted: Lean kernel; propext/Classical.choice/Quot.sound; user closures are honest as the code's own debug_assert!s demand (hypothesis Honest); EnvFilter with span-scoped directives as a leaf and Vec / Option layer "
+                "wrappers are not in the stack model (C09 erases the wrappers). Known findings F6 (Vec register_callsite), F8 (EnvFilter [span]=level) are stack/EnvFilter-level.",
         'technique': 'Lean 4 proof (structural induction on the expression type) + differential run against the real combinators',
     },
-    'lean_module': 'TracingModel.Props.C08',
+    'lean_module': 'TracingModel.Props.C08S',
+    'leanchecker_modules': ['TracingModel.Props.C08'],
     'namespace': 'C08',
     'units': [],
-    'required_theorems': ['C08.interest_sound', 'C08.hint_sound'],
-    'streams': [_st],
+    'required_theorems': ['C08.interest_sound', 'C08.hint_sound', 'C08.stack_interest_sound', 'C08.stack_hint_sound'],
+    'streams': [_st, _sk, _sc],
     'rule': 'random filter expressions (depth <= 4 quick / 6 thorough) over level thresholds, Targets strings, static closures with/without (honest) hints, context-dependent closures with/without hint and callsite closure, '
-            'None/Some, and/or/not, reload and Box wrappers; each evaluated on 7 targets x 5 levels x span/event x 4 field sets in two contexts through the real Filtered layer; non-trivial = at least 2 operators/leaves and >=2 distinct interests',
-    'trusted_base': ['hand-written model Core/FilterExpr.lean', 'executor h_filters (builds Box<dyn Filter> trees with the real FilterExt combinators)'],
+            'None/Some, and/or/not, reload and Box wrappers; each evaluated on 7 targets x 5 levels x span/event x 4 field sets in two contexts through the real Filtered layer; non-trivial = at least 2 operators/leaves and >=2 distinct interests. Streams stack / stackchain: the stack and history generators of C07 with the max-level-hint gate switched on in the front end; non-trivial as in C07',
+    'trusted_base': ['hand-written model Core/FilterExpr.lean', 'executor h_filters (builds Box<dyn Filter> trees with the real FilterExt combinators)', 'hand-written models Core/Filtering.lean, Core/Reload.lean (stackInterest, stackHint)', 'executors h_layers, h_chain with TV_HINT_GATE'],
     'assumptions': ['closure hints are honest (generated so)'],
 }
